@@ -1131,6 +1131,27 @@ impl PrefixOracle for StreamPrefix {
     }
 }
 
+/// Opening only (for very large files): a cut that opens must show the whole file's headers.
+pub struct StreamOpenPrefix;
+impl PrefixOracle for StreamOpenPrefix {
+    fn check(&self, _sk: &Skeleton, whole: &[u8], cut: &[u8], out: &mut Outcome) {
+        let (rw, _) = open_stream(&Arc::new(whole.to_vec()), &[]);
+        let (rc, _) = open_stream(&Arc::new(cut.to_vec()), &[]);
+        out.transitions += 2;
+        match (rc, rw) {
+            (Err(m), _) => out.violate(format!("panic:ElfStream::open_stream in {}", panic_site(&m)), m),
+            (Ok(Ok(c)), Ok(Ok(w))) => {
+                if open_digest_stream(&c) != open_digest_stream(&w) {
+                    out.violate("different-answer:ElfStream::open_stream", format!("the {}-byte cut opens with other headers (sections {}, segments {}) than the {}-byte file (sections {}, segments {})", cut.len(), c.section_headers().len(), c.segments().len(), whole.len(), w.section_headers().len(), w.segments().len()));
+                }
+                out.count("huge_cut_opens");
+            }
+            (Ok(Ok(_)), _) => out.violate("cut-answers-where-whole-errors:ElfStream::open_stream", format!("{}-byte cut", cut.len())),
+            _ => out.count("huge_cut_does_not_open"),
+        }
+    }
+}
+
 pub fn c18_stream_spaces(tier: Tier) -> Vec<Box<dyn Space>> {
     let mut v: Vec<Box<dyn Space>> = Vec::new();
     let tiny = tiny_skeletons();
